@@ -105,6 +105,22 @@ def r2(cx):
         if t["callee"] == "parking_lot::lock_api::RwLock::<R, T>::write":
             if M.has_field(M.operand_origins(lb, t["args"][0], at=(bi, M.T)), None, ".registered_metrics_paths"):
                 n_w += 1
+    # the table is built from exactly the selected paths: one URL per chunk path of this call, nothing derived from them by a routine of the crate (a directory URL, a
+    # prefix, a widened listing reads every object stored there - compaction sources awaiting GC, retention-deleted chunks, orphans of a crashed flush)
+    ADP = set(M.PURE_ADAPTERS) | {"std::collections::BTreeSet::<T, A>::iter", "std::iter::Iterator::map", "std::iter::Iterator::collect", "std::iter::IntoIterator::into_iter",
+                                  "std::collections::BTreeSet::<T, A>::into_iter", "std::vec::Vec::<T, A>::iter", "core::slice::<impl [T]>::iter"}
+    cfgs = M.find_calls(lb, lambda c: c.endswith("ListingTableConfig::new_with_multi_paths") or c.endswith("ListingTableConfig::new"))
+    if cx.floor("listing-table configurations in the registration", len(cfgs), 1, lk):
+        for cb in cfgs:
+            o = M.operand_origins(lb, lb.term(cb)["args"][0], at=(cb, M.T), adapters=ADP)
+            local_calls = sorted({x[1][1] for x in o if x[0] == "call" and (x[1][1] in cx.prog.calls or x[1][1].startswith(("query::", "<query::")))})
+            from_sel = any(x[0] in ("upvar", "arg") and "chunk_paths" in str(x[1]) for x in o)
+            if from_sel and not local_calls:
+                cx.passed(lk, "table-over-exactly-the-selected-paths", [lb.sp(cb)])
+            else:
+                cx.violation(lk, "table-over-exactly-the-selected-paths", "%s: the locations the `metrics` table is built over are %s: a location that is not one selected chunk file makes the "
+                             "scan read whatever else is stored there, and the answer then depends on compaction, retention and crash leftovers" % (
+                                 lb.sp(cb), ("reshaped by %s" % local_calls) if local_calls else "not derived from this call's chunk paths"), [lb.sp(cb)])
     # the record follows the table: it is written only behind a successful (re-)registration of this call - never ahead of it.  The routine awaits (schema inference reads
     # parquet footers); a request dropped at such a point after the record was moved leaves the record naming a set the table does not hold, and every later request for
     # that set takes the equality short-cut against another query's chunks
